@@ -68,12 +68,23 @@ Fixpoint std_prefix (tbl : list (str * str)) (u : str) : option str :=
   end.
 
 Definition s_ns : str := [110; 115].
-(* generate_prefix: returns the prefix and the updated map.  Namespace.get_enum is
-   only consulted for a truthy uri. *)
+(* the while loop: first ns<k>, k >= the start, that is not a key.  At most len(ns_map)
+   keys can be taken, so len(ns_map)+1 iterations always suffice (`free_ns_free`). *)
+Fixpoint free_ns (m : nsmap) (k : N) (fuel : nat) : str :=
+  match fuel with
+  | O => s_ns ++ to_dec k
+  | S f => if nm_has_key m (Some (s_ns ++ to_dec k)) then free_ns m (k + 1) f else s_ns ++ to_dec k
+  end.
+(* generate_prefix: returns the prefix and the updated map.  Namespace.get_enum is only
+   consulted for a truthy uri; the standard prefix is used when ns_map.get(prefix, uri) == uri. *)
 Definition generate_prefix (u : str) (m : nsmap) : str * nsmap :=
+  let fresh := free_ns m (N.of_nat (length m)) (S (length m)) in
   let p := match (match u with [] => None | _ => std_prefix std_namespaces u end) with
-           | Some p => p
-           | None => s_ns ++ to_dec (N.of_nat (length m))
+           | Some sp => match nm_get m (Some sp) with
+                        | None => sp
+                        | Some u' => if str_eqb u' u then sp else fresh
+                        end
+           | None => fresh
            end in
   (p, nm_set m (Some p) u).
 
@@ -767,27 +778,6 @@ Definition user_prefix_legal (e : option str * str) : bool :=
   end && uri_ok (snd e) && negb (str_eqb (snd e) ns_xml).
 Definition user_prefixes_legal (user : nsmap) : bool := forallb user_prefix_legal (serializer_ns_map user).
 
-(* -- clause: generate_prefix can not overwrite a user entry -------------------------------- *)
-Definition generated_index (p : str) : option N :=
-  match p with
-  | a :: b :: ((_ :: _) as ds) =>
-      if (a =? 110) && (b =? 115) && all_digits ds && str_eqb (to_dec (str_val ds)) ds
-      then Some (str_val ds) else None
-  | _ => None
-  end.
-Definition user_entry_no_collision (n : nat) (e : option str * str) : bool :=
-  match fst e with
-  | None => true
-  | Some p =>
-      match generated_index p with
-      | Some k => k <? N.of_nat n
-      | None => true
-      end
-      && forallb (fun t => implb (str_eqb p (snd t)) (str_eqb (snd e) (fst t))) std_namespaces
-  end.
-Definition user_no_collision (user : nsmap) : bool :=
-  let m := serializer_ns_map user in forallb (user_entry_no_collision (length m)) m.
-
 (* -- scoped clauses ------------------------------------------------------------------------ *)
 (* two data events in a row: the second one is written after the end tag *)
 Fixpoint adj_ok (prev_data : bool) (ks : list item) : bool :=
@@ -873,7 +863,7 @@ Definition t_attrs_present : item -> bool :=
 Definition events_wf (evs : list wevent) : bool := well_nested_b evs && on_tree t_attrs_present evs.
 
 Definition user_map_ok (cfg : wconfig) (user : nsmap) (evs : list wevent) : bool :=
-  user_prefixes_legal user && user_no_collision user
+  user_prefixes_legal user
   && default_not_on_attr cfg user evs && default_qname_ok user evs.
 
 Definition events_ok (cfg : wconfig) (evs : list wevent) : bool :=
@@ -900,7 +890,7 @@ Definition expected (cfg : wconfig) (evs : list wevent) : option enode :=
 
 (* the clauses of writer_guard, in a fixed order (used by the refutation lemmas) *)
 Definition clause_vector (cfg : wconfig) (user : nsmap) (evs : list wevent) : list bool :=
-  [ user_prefixes_legal user; user_no_collision user; default_not_on_attr cfg user evs;
+  [ user_prefixes_legal user; default_not_on_attr cfg user evs;
     default_qname_ok user evs; names_ok evs; texts_ok cfg evs; no_cr_in_data evs;
     no_adjacent_data evs; no_late_qname_data evs; nil_content_ok evs; no_clark_datatype_text evs;
     events_wf evs ].
